@@ -1,0 +1,371 @@
+//go:build verif
+// +build verif
+
+// Test-only driver for the verification harness (build tag "verif").
+// It serves JSON requests, one per line on stdin, and answers with one line
+// "VERIFRESP <json>" on stdout. It feeds supplied datagrams to the real
+// worker, mirror and option-parsing functions of package main through the
+// real channels and buffer pools; it contains no logic of its own beyond
+// starting/joining goroutines and copying results out.
+
+package main
+
+import (
+	"bufio"
+	"encoding/hex"
+	"encoding/json"
+	"flag"
+	"fmt"
+	"io/ioutil"
+	"log"
+	"net"
+	"os"
+	"path/filepath"
+	"sync"
+	"sync/atomic"
+	"testing"
+	"time"
+
+	"github.com/EdgeCast/vflow/ipfix"
+	netflow9 "github.com/EdgeCast/vflow/netflow/v9"
+)
+
+type verifDatagram struct {
+	Addr string `json:"addr"` // exporter address, hex (4 or 16 octets)
+	Port int    `json:"port"`
+	Data string `json:"data"` // payload, hex
+}
+
+type verifRequest struct {
+	Op string `json:"op"`
+
+	// pipeline
+	Proto      string            `json:"proto"`
+	Workers    int               `json:"workers"`
+	UDPSize    int               `json:"udpsize"`
+	Filter     []uint32          `json:"filter"`
+	ResetCache bool              `json:"reset_cache"`
+	Mirror     bool              `json:"mirror"`
+	MirrorDst  string            `json:"mirror_dst"`
+	MirrorPort int               `json:"mirror_port"`
+	Phases     [][]verifDatagram `json:"phases"`
+
+	// options
+	Args   []string          `json:"args"`
+	Env    map[string]string `json:"env"`
+	Config *string           `json:"config"`
+}
+
+type verifPhaseResult struct {
+	Published    []string `json:"published"` // hex payloads taken from the MQ channel
+	DecodedDelta uint64   `json:"decoded_delta"`
+	Mirrored     int      `json:"mirrored"` // datagrams the workers queued for mirroring
+}
+
+type verifResponse struct {
+	Error   string                 `json:"error,omitempty"`
+	Phases  []verifPhaseResult     `json:"phases,omitempty"`
+	Options map[string]interface{} `json:"options,omitempty"`
+	Mirror  string                 `json:"mirror,omitempty"` // outcome of the mirror goroutine
+}
+
+func verifUDPAddr(d verifDatagram) (*net.UDPAddr, []byte, error) {
+	a, err := hex.DecodeString(d.Addr)
+	if err != nil {
+		return nil, nil, err
+	}
+	b, err := hex.DecodeString(d.Data)
+	if err != nil {
+		return nil, nil, err
+	}
+	ip := make(net.IP, len(a))
+	copy(ip, a)
+	return &net.UDPAddr{IP: ip, Port: d.Port}, b, nil
+}
+
+// verifPipeline runs the phases of one request through real workers.
+func verifPipeline(req *verifRequest) (resp verifResponse) {
+	if req.Workers < 1 {
+		req.Workers = 1
+	}
+	if req.UDPSize < 1 {
+		req.UDPSize = 1500
+	}
+	o := NewOptions()
+	o.Logger = log.New(ioutil.Discard, "", 0)
+	o.IPFIXUDPSize, o.NetflowV9UDPSize, o.NetflowV5UDPSize, o.SFlowUDPSize = req.UDPSize, req.UDPSize, req.UDPSize, req.UDPSize
+	o.SFlowTypeFilter = req.Filter
+	opts = o
+	logger = o.Logger
+
+	// pools hold buffers of the configured size, as at start-up
+	ipfixBuffer = &sync.Pool{New: func() interface{} { return make([]byte, opts.IPFIXUDPSize) }}
+	netflowV9Buffer = &sync.Pool{New: func() interface{} { return make([]byte, opts.NetflowV9UDPSize) }}
+	netflowV5Buffer = &sync.Pool{New: func() interface{} { return make([]byte, opts.NetflowV5UDPSize) }}
+	sFlowBuffer = &sync.Pool{New: func() interface{} { return make([]byte, opts.SFlowUDPSize) }}
+
+	if req.ResetCache || mCache == nil {
+		mCache = ipfix.GetCache("")
+	}
+	if req.ResetCache || mCacheNF9 == nil {
+		mCacheNF9 = netflow9.GetCache("")
+	}
+	ipfixMirrorEnabled = req.Mirror && req.Proto == "ipfix"
+	sFlowMirrorEnabled = req.Mirror && req.Proto == "sflow"
+
+	ix, n9, n5, sf := NewIPFIX(), NewNetflowV9(), NewNetflowV5(), NewSFlow()
+
+	for _, phase := range req.Phases {
+		var (
+			wg      sync.WaitGroup
+			quits   []chan struct{}
+			pr      verifPhaseResult
+			before  uint64
+			drained = make(chan struct{})
+			stop    = make(chan struct{})
+			mq      chan []byte
+		)
+		switch req.Proto {
+		case "ipfix":
+			mq, before = ipfixMQCh, atomic.LoadUint64(&ix.stats.DecodedCount)
+		case "nf9":
+			mq, before = netflowV9MQCh, atomic.LoadUint64(&n9.stats.DecodedCount)
+		case "nf5":
+			mq, before = netflowV5MQCh, atomic.LoadUint64(&n5.stats.DecodedCount)
+		case "sflow":
+			mq, before = sFlowMQCh, atomic.LoadUint64(&sf.stats.DecodedCount)
+		default:
+			resp.Error = "unknown proto " + req.Proto
+			return
+		}
+		// consumer of the message queue (the producer's role)
+		go func() {
+			defer close(drained)
+			for {
+				select {
+				case b := <-mq:
+					pr.Published = append(pr.Published, hex.EncodeToString(b))
+				case <-stop:
+					for {
+						select {
+						case b := <-mq:
+							pr.Published = append(pr.Published, hex.EncodeToString(b))
+						default:
+							return
+						}
+					}
+				}
+			}
+		}()
+		// workers, started as run() starts them
+		for n := 0; n < req.Workers; n++ {
+			wQuit := make(chan struct{})
+			quits = append(quits, wQuit)
+			wg.Add(1)
+			go func() {
+				defer wg.Done()
+				switch req.Proto {
+				case "ipfix":
+					ix.ipfixWorker(wQuit)
+				case "nf9":
+					n9.netflowV9Worker(wQuit)
+				case "nf5":
+					n5.netflowV5Worker(wQuit)
+				case "sflow":
+					sf.sFlowWorker(wQuit)
+				}
+			}()
+		}
+		// injection, as the receive loop does: pooled buffer, copy, b[:n], send
+		for _, d := range phase {
+			raddr, data, err := verifUDPAddr(d)
+			if err != nil {
+				resp.Error = err.Error()
+				return
+			}
+			switch req.Proto {
+			case "ipfix":
+				b := ipfixBuffer.Get().([]byte)
+				n := copy(b, data)
+				ipfixUDPCh <- IPFIXUDPMsg{raddr, b[:n]}
+			case "nf9":
+				b := netflowV9Buffer.Get().([]byte)
+				n := copy(b, data)
+				netflowV9UDPCh <- NetflowV9UDPMsg{raddr, b[:n]}
+			case "nf5":
+				b := netflowV5Buffer.Get().([]byte)
+				n := copy(b, data)
+				netflowV5UDPCh <- NetflowV5UDPMsg{raddr, b[:n]}
+			case "sflow":
+				b := sFlowBuffer.Get().([]byte)
+				n := copy(b, data)
+				sFlowUDPCh <- SFUDPMsg{raddr, b[:n]}
+			}
+		}
+		// quiescence: queue empty, then workers told to quit and joined
+		for {
+			var l int
+			switch req.Proto {
+			case "ipfix":
+				l = len(ipfixUDPCh)
+			case "nf9":
+				l = len(netflowV9UDPCh)
+			case "nf5":
+				l = len(netflowV5UDPCh)
+			case "sflow":
+				l = len(sFlowUDPCh)
+			}
+			if l == 0 {
+				break
+			}
+			time.Sleep(200 * time.Microsecond)
+		}
+		for _, q := range quits {
+			close(q)
+		}
+		wg.Wait()
+		close(stop)
+		<-drained
+		switch req.Proto {
+		case "ipfix":
+			pr.DecodedDelta = atomic.LoadUint64(&ix.stats.DecodedCount) - before
+		case "nf9":
+			pr.DecodedDelta = atomic.LoadUint64(&n9.stats.DecodedCount) - before
+		case "nf5":
+			pr.DecodedDelta = atomic.LoadUint64(&n5.stats.DecodedCount) - before
+		case "sflow":
+			pr.DecodedDelta = atomic.LoadUint64(&sf.stats.DecodedCount) - before
+		}
+		// what the workers queued for mirroring goes through the real mirror function
+		if req.Mirror {
+			dst := net.ParseIP(req.MirrorDst)
+			switch req.Proto {
+			case "ipfix":
+				ch := make(chan IPFIXUDPMsg)
+				res := make(chan error, 1)
+				go func() { res <- mirrorIPFIX(dst, req.MirrorPort, ch) }()
+			LOOPI:
+				for {
+					select {
+					case m := <-ipfixMCh:
+						select {
+						case ch <- m:
+							pr.Mirrored++
+						case err := <-res:
+							resp.Mirror = fmt.Sprintf("mirror function returned: %v", err)
+							break LOOPI
+						}
+					default:
+						break LOOPI
+					}
+				}
+			case "sflow":
+				ch := make(chan SFUDPMsg)
+				res := make(chan error, 1)
+				go func() { res <- mirrorSFlow(dst, req.MirrorPort, ch) }()
+			LOOPS:
+				for {
+					select {
+					case m := <-sFlowMCh:
+						select {
+						case ch <- m:
+							pr.Mirrored++
+						case err := <-res:
+							resp.Mirror = fmt.Sprintf("mirror function returned: %v", err)
+							break LOOPS
+						}
+					default:
+						break LOOPS
+					}
+				}
+			}
+			// the last datagram handed over is still being sent
+			time.Sleep(5 * time.Millisecond)
+		}
+		resp.Phases = append(resp.Phases, pr)
+	}
+	return
+}
+
+// verifOptions runs the real option loading (environment, file, flags) in this process.
+func verifOptions(req *verifRequest, tmp string) (resp verifResponse) {
+	args := []string{"vflow"}
+	if req.Config != nil {
+		file := filepath.Join(tmp, "vflow.conf")
+		if err := ioutil.WriteFile(file, []byte(*req.Config), 0644); err != nil {
+			resp.Error = err.Error()
+			return
+		}
+		args = append(args, "-config", file)
+	}
+	args = append(args, req.Args...)
+	for k, v := range req.Env {
+		os.Setenv(k, v)
+	}
+	defer func() {
+		for k := range req.Env {
+			os.Unsetenv(k)
+		}
+	}()
+	savedArgs, savedFlags := os.Args, flag.CommandLine
+	defer func() { os.Args, flag.CommandLine = savedArgs, savedFlags }()
+	os.Args = args
+	flag.CommandLine = flag.NewFlagSet(args[0], flag.ContinueOnError)
+	flag.CommandLine.SetOutput(ioutil.Discard)
+
+	o := NewOptions()
+	o.Logger = log.New(ioutil.Discard, "", 0)
+	o.flagSet()
+
+	b, err := json.Marshal(o)
+	if err != nil {
+		resp.Error = err.Error()
+		return
+	}
+	json.Unmarshal(b, &resp.Options)
+	delete(resp.Options, "Logger")
+	return
+}
+
+func TestVerifDriver(t *testing.T) {
+	if os.Getenv("VERIF_DRIVER") == "" {
+		t.Skip("verification driver: only runs under the harness")
+	}
+	tmp, err := ioutil.TempDir(os.Getenv("VERIF_WORK"), "drv")
+	if err != nil {
+		t.Fatal(err)
+	}
+	defer os.RemoveAll(tmp)
+
+	in := bufio.NewReaderSize(os.Stdin, 1<<20)
+	out := bufio.NewWriter(os.Stdout)
+	for {
+		line, err := in.ReadBytes('\n')
+		if len(line) > 1 {
+			var req verifRequest
+			var resp verifResponse
+			if jerr := json.Unmarshal(line, &req); jerr != nil {
+				resp.Error = "bad request: " + jerr.Error()
+			} else {
+				switch req.Op {
+				case "pipeline":
+					resp = verifPipeline(&req)
+				case "options":
+					resp = verifOptions(&req, tmp)
+				case "quit":
+					return
+				default:
+					resp.Error = "unknown op " + req.Op
+				}
+			}
+			b, _ := json.Marshal(resp)
+			out.WriteString("VERIFRESP ")
+			out.Write(b)
+			out.WriteByte('\n')
+			out.Flush()
+		}
+		if err != nil {
+			return
+		}
+	}
+}
